@@ -433,6 +433,7 @@ async def overlap_scenario(loop, steps, seed):
     logs, vlogs = {1: [], 2: []}, {1: [], 2: []}
     evno = [0]
     ops = []
+    mtrace, msnaps, emitted = [], [], set()   # for the Lean model of overlapping calls (Subs.ostep): effects per step, subscriptions after it
     clock = itertools.count(1)
     cut_seen = False   # a subscription request (a caller's or the re-subscription of a reconnect) was pending when the connection went away
     with net.patched():
@@ -568,6 +569,18 @@ async def overlap_scenario(loop, steps, seed):
                         o["task"].cancel()
                 await settle(loop)
             stats["max-pending-calls"] = max(stats["max-pending-calls"], sum(1 for o in ops if o["done"] is None))
+            # ---- the call effects of this step in the order they happened (harness bookkeeping only): a subscribe takes effect when it
+            # starts, an unsubscribe when it returns normally (at once on a pairing that is not connected)
+            eff = []
+            for n_op, o in enumerate(ops):
+                if o["kind"] == "sub" and ("s", n_op) not in emitted:
+                    emitted.add(("s", n_op))
+                    eff.append((o["issued"], "aw:" + show_chs(o["chs"])))
+                if o["kind"] == "unsub" and o["done"] is not None and o["exc"] is None and ("u", n_op) not in emitted:
+                    emitted.add(("u", n_op))
+                    eff.append((o["done"], "rw:" + show_chs(o["chs"])))
+            mtrace.append([t for _, t in sorted(eff)])
+            msnaps.append(show_chs(p.subscriptions))
             # ---- oracles (property text; the reference is the harness's own record of the calls and the accessory's record of the requests)
             for o in ops:
                 if o["exc"] is not None and not o.get("reported"):
@@ -613,6 +626,7 @@ async def overlap_scenario(loop, steps, seed):
                 del net.errors[:]
         await p.shutdown()
         await settle(loop)
+    stats["model"] = (mtrace, msnaps)
     return stats, problems
 
 
@@ -682,10 +696,11 @@ def gen_overlap_random(rng):
     return steps + ["free", "conn", "drop", "conn"]
 
 
-def run_overlap(ctx: Ctx, cases):
+def run_overlap(ctx: Ctx, cases, driver=None):
     loop = simnet.VLoop()
     asyncio.set_event_loop(loop)
     minimized = {}
+    mcases, mouts, mlines = [], [], []
 
     def once(steps, seed):
         out = loop.run_until_complete(overlap_scenario(loop, steps, seed))
@@ -708,6 +723,12 @@ def run_overlap(ctx: Ctx, cases):
             ctx.dist["kind:" + kind] += 1
             for e in steps:
                 ctx.dist["ov:" + e.split(":")[0]] += 1
+            mt = stats.pop("model", None)
+            if mt is not None and driver is not None:
+                # one marker (`ar:-`, the accessory receives an empty request: no change) closes every step, so that the model prints once per step
+                mlines.append("sb.overlap - " + " ".join(" ".join(effs + ["ar:-"]) for effs in mt[0]))
+                mouts.append(" ".join(mt[1]))
+                mcases.append(case)
             for k, v in stats.items():
                 if k.startswith("max-"):
                     ctx.dist["ov-" + k] = max(ctx.dist["ov-" + k], v)
@@ -735,6 +756,23 @@ def run_overlap(ctx: Ctx, cases):
     finally:
         asyncio.set_event_loop(None)
         loop.close()
+    if driver is not None and mlines:
+        def at_markers(line_out, line=None):
+            return line_out
+        # the model prints `wanted/registered` after every token; keep the wanted set at the step markers
+        outs2 = []
+        for ln, raw in zip(mlines, driver.run(mlines)):
+            toks = ln.split(" ")[2:]
+            vals = raw.split(" ")
+            if len(vals) != len(toks):
+                outs2.append(raw)
+                continue
+            outs2.append(" ".join(v.split("/")[0] for t, v in zip(toks, vals) if t == "ar:-"))
+        for c, impl, model in zip(mcases, mouts, outs2):
+            ctx.streams["overlap"] += 1
+            ctx.traces += 1
+            if impl != model:
+                ctx.mismatch("overlap", c, impl[:600], model[:600])
 
 
 def overlap_cases(ctx, mult=1):
@@ -891,7 +929,7 @@ def cases_for(ctx):
 
 def run(ctx: Ctx, driver: Driver):
     run_cases(ctx, driver, cases_for(ctx))
-    run_overlap(ctx, overlap_cases(ctx))
+    run_overlap(ctx, overlap_cases(ctx), driver)
 
 
 def replay(ctx: Ctx, driver: Driver, case):
